@@ -189,6 +189,12 @@ int main(int argc, char** argv)
         }
         // a trailing `+alias` token on any line (normally the one that creates the library) switches handle
         // aliasing on for the rest of the script; tools/runner.py strips the token before the model sees the line
+        djv::lib::S.sameref = false;
+        if (!a.empty() && a.back() == "+sameref")
+        {
+            djv::lib::S.sameref = true;
+            a.pop_back();
+        }
         if (!a.empty() && a.back() == "+alias")
         {
             djv::lib::S.alias = true;
